@@ -313,7 +313,9 @@ def decode_body(body):
         pts.append({"infinity": inf, "x": hex(x), "y": hex(y)})
     k1 = int.from_bytes(r.blob(), "big")
     k2 = int.from_bytes(r.blob(), "big")
-    return {"curve": cur, "alias_same_object": alias, "A": pts[0], "B": pts[1], "k1": hex(k1), "k2": hex(k2),
+    return {"curve": cur, "alias_same_object": alias & 1,
+            "result_object": {0: "separate", 1: "first point operand", 2: "second point operand"}.get(alias >> 1, "?"),
+            "A": pts[0], "B": pts[1], "k1": hex(k1), "k2": hex(k2),
             "k1_bits": k1.bit_length(), "k2_bits": k2.bit_length()}
 
 
@@ -343,11 +345,15 @@ def exp_obs_point(exp):
 # ---------------------------------------------------------------------------
 # scalar classes
 # ---------------------------------------------------------------------------
-F_KBITS_GT_M, F_ZERO_SCALAR = 1, 2
+F_KBITS_GT_M, F_ZERO_SCALAR, F_RES_ALIAS = 1, 2, 4
+RES_SEP, RES_FIRST, RES_SECOND = 0, 2, 4          # alias bits 1-2: where twin multiplication writes its result
+RES_NAME = {0: "", 2: ",res==A", 4: ",res==B"}
 
 
-def case_flags(op, k1, k2, m):
+def case_flags(op, k1, k2, m, alias=0):
     f = 0
+    if alias >> 1:
+        f |= F_RES_ALIAS
     if op in (OP_UNK, OP_BP, OP_TWIN, OP_TWINBP) and max(k1.bit_length(), k2.bit_length()) > m:
         f |= F_KBITS_GT_M
     if op in (OP_TWIN, OP_TWINBP) and (k1 == 0 or k2 == 0):
@@ -478,7 +484,7 @@ def gen_builtin(job):
         body = pk_body(cspec, nb, alias, A, B, k1, k2)
         if op in CHEAP_OPS:
             pri = PRI_CHEAP
-        cases.append((op, body, exp, (rel, scl), pri, 0, case_flags(op, k1, k2, m)))
+        cases.append((op, body, exp, (rel + RES_NAME[alias & 6], scl), pri, 0, case_flags(op, k1, k2, m, alias)))
 
     # ---- add / sub / doubling --------------------------------------------------
     P, Q, S = rpt(), rpt(), rpt()
@@ -562,14 +568,17 @@ def gen_builtin(job):
             if al:
                 rb = ra
             e = ec.add(c, ec.mul(c, k1 % n, A), ec.mul(c, k2 % n, B))
-            emit(OP_TWIN, al, ra, rb, k1, k2, expo(e), rel, sclass(k1, n, m) + "|" + sclass(k2, n, m),
+            # the result object rotates: separate / first point operand / second point operand
+            sel = (RES_SEP, RES_FIRST, RES_SECOND)[(ri + j) % 3]
+            emit(OP_TWIN, al | sel, ra, rb, k1, k2, expo(e), rel, sclass(k1, n, m) + "|" + sclass(k2, n, m),
                  PRI_CORE if j < 2 else PRI_EXT)
     for ri, (rel, B) in enumerate([("B", P), ("B==G", G), ("B==-G", ec.neg(c, G)), ("B==O", O), ("B==2G", kG(2))]):
         for j in range(per if full else 3):
             k1, k2 = spairs[(ri * 5 + j) % len(spairs)] if not full else spairs[j]
             e = ec.add(c, kG(k1), ec.mul(c, k2 % n, B))
-            emit(OP_TWINBP, 0, rep(O), rep(B, S), k1, k2, expo(e), rel, sclass(k1, n, m) + "|" + sclass(k2, n, m),
-                 PRI_CORE if j < 1 else PRI_EXT)
+            sel = RES_SECOND if (ri + j) % 2 == 0 else RES_SEP      # in place: Q = d*G + e*Q
+            emit(OP_TWINBP, sel, rep(O), rep(B, S), k1, k2, expo(e), rel, sclass(k1, n, m) + "|" + sclass(k2, n, m),
+                 PRI_CORE if j < 2 else PRI_EXT)
     for _, _, e, _, _, _, _ in cases:
         if e[0] == 0 and not ec.on_curve(c, (e[1], e[2])):
             raise common.Inconclusive("oracle produced an off-curve point on %s" % c.name)
@@ -734,7 +743,8 @@ def gen_syn(job):
 
     def emit(op, m, alias, A, B, k1, k2, exp, rel, scl):
         body = pk_body(specs[m], nbytes(m), alias, A, B, k1, k2)
-        cases.append((op, body, exp, (rel, scl + ("" if m == m0 else "@m>|p|")), PRI_CHEAP, m, case_flags(op, k1, k2, m)))
+        cases.append((op, body, exp, (rel + RES_NAME[alias & 6], scl + ("" if m == m0 else "@m>|p|")), PRI_CHEAP, m,
+                      case_flags(op, k1, k2, m, alias)))
 
     def relclass(i, j):
         if i == 0 and j == 0:
@@ -825,7 +835,9 @@ def gen_syn(job):
                         if al:
                             B = A
                         e = addt[mult[i][k1]][mult[j][k2]]
-                        emit(OP_TWIN, m, al, A, B, k1, k2, expo(e), rel, scl(k1, m) + "|" + scl(k2, m))
+                        # result object rotates over the grid: separate (half), first operand, second operand
+                        sel = (RES_SEP, RES_FIRST, RES_SEP, RES_SECOND)[(i + ri + grid.index(k1) + 2 * grid.index(k2)) % 4]
+                        emit(OP_TWIN, m, al | sel, A, B, k1, k2, expo(e), rel, scl(k1, m) + "|" + scl(k2, m))
             for k1 in grid:
                 for k2 in grid:
                     if sub and (i + k1 + 3 * k2) % 4:
@@ -834,7 +846,8 @@ def gen_syn(job):
                         continue
                     e = addt[mult[gi][k1]][mult[i][k2]]
                     rel = "B==O" if i == 0 else ("B==G" if i == gi else ("B==-G" if i == negt[gi] else "B"))
-                    emit(OP_TWINBP, m, 0, rep(0), rep(i, 2 % N), k1, k2, expo(e), rel, scl(k1, m) + "|" + scl(k2, m))
+                    sel = RES_SECOND if (i + grid.index(k1) + grid.index(k2)) % 2 else RES_SEP
+                    emit(OP_TWINBP, m, sel, rep(0), rep(i, 2 % N), k1, k2, expo(e), rel, scl(k1, m) + "|" + scl(k2, m))
         if m > m0:
             for t in range(32 if tier == "quick" else 96):
                 L1, L2 = 1 + rng.below(m), 1 + rng.below(m)
@@ -842,15 +855,15 @@ def gen_syn(job):
                 k2 = (1 << (L2 - 1)) | (rng.bits(L2 - 1) if L2 > 1 else 0)
                 i, j = rng.below(N), rng.below(N)
                 e = addt[mul_idx(i, k1)][mul_idx(j, k2)]
-                emit(OP_TWIN, m, 0, rep(i, 1), rep(j, 1), k1, k2, expo(e), "A,B", "wide|wide")
+                emit(OP_TWIN, m, (RES_SEP, RES_FIRST, RES_SECOND)[t % 3], rep(i, 1), rep(j, 1), k1, k2, expo(e), "A,B", "wide|wide")
                 e = addt[mul_idx(gi, k1)][mul_idx(j, k2)]
-                emit(OP_TWINBP, m, 0, rep(0), rep(j, 1), k1, k2, expo(e), "B", "wide|wide")
+                emit(OP_TWINBP, m, RES_SECOND if t % 2 else RES_SEP, rep(0), rep(j, 1), k1, k2, expo(e), "B", "wide|wide")
     desc = {"curve": c.name, "p": p, "a": a, "b": b, "flags": flags, "group_order": N, "n": n, "h": h,
             "G": list(G), "points_with_y=0": sum(1 for P in pts[1:] if P[1] == 0),
             "points_with_x=0": sum(1 for P in pts[1:] if P[0] == 0), "declared_m": pads,
             "enumerated": "every ordered pair (P,Q) incl. infinity for add and sub (%d pairs each), every point as "
                           "same-object operand, every (P,k) with 0<=k<=#E+1 (k<=n+1 or bitlen(k)<=m) for unknown-point mult for each declared m, "
-                          "every k in that range for base-point mult, twin mult for every A x 7 operand relations x "
+                          "every k in that range for base-point mult, twin mult (result object rotating over separate / first operand / second operand, bp form also in place) for every A x 7 operand relations x "
                           "%dx%d scalar grid (natural m)" % (N * N, len(grid), len(grid))}
     return {"kind": "syn", "name": c.name, "bits": m0, "n_bits": n.bit_length(), "m": m0, "cases": cases, "desc": desc,
             "big": p > 60, "sid": sid}
@@ -911,7 +924,9 @@ def _extra_marks(case, group, info):
     """Key suffixes that keep distinct root causes apart.  They are emitted only where the algorithm on
     the entry point's path is sensitive to them: a table of precomputed doubles has one entry per curve
     bit (scalars longer than m bits), the joint-sparse-form recoding reads the low digit of both scalars
-    (zero scalars).  Everything else about the case is in the witness, not in the key."""
+    (zero scalars); a twin multiplication whose result object is one of its point operands is marked
+    because an implementation that writes `res` before it has read the operands fails only then.
+    Everything else about the case is in the witness, not in the key."""
     op = case[0]
     s = ""
     pre = "BIN_PRECALC_DBL"
@@ -921,6 +936,8 @@ def _extra_marks(case, group, info):
         s += ",kbits>m"
     if op in (OP_TWIN, OP_TWINBP) and info.twin == "JOINT" and case[6] & F_ZERO_SCALAR:
         s += ",zero-scalar"
+    if case[6] & F_RES_ALIAS:
+        s += ",res-aliases-operand"
     return s
 
 
@@ -1309,6 +1326,8 @@ def run(tier):
         "cases = (curve, entry point, operand relation, scalars) generated once per seed and run in every "
         "configuration (ASan+UBSan build once, plain -O2 build twice with different junk in uninitialised memory); "
         "built-in curves: P=kG operands in relations {P,Q / same object / equal copy / P,-P / infinity either side}, "
+        "twin multiplication with the result object separate, equal to the first or to the second point operand "
+        "(ec_point_twin_mult_bp also in place), "
         "scalars {0..4, n-2..n+1, (n+-1)/2, 2^i, 2^i+-1 at digit boundaries, all-ones, alternating, one comb column / "
         "sliding window non-zero per position, repeated columns, random per bit length}; synthetic curves: whole group "
         "enumerated. A behaviour class is distinct when (entry point, configuration family = coordinate system + "
